@@ -87,12 +87,16 @@ def check(repo, rep):
         for ch_ in CHANS:
             bps_ = sw_ * ch_
             for n_ in NS:
-                for a_ in INTS:
-                    for b_ in INTS:
+                for a_ in INTS + (10 ** 400, -10 ** 400):
+                    for b_ in INTS + (10 ** 400, -10 ** 400):
                         assign = {('p', 'index'): slice(a_, b_), LEN: n_ * bps_, LENSELF: n_, ('attr', ('self',), 'sample_width'): sw_, ('attr', ('self',), 'channels'): ch_,
                                   ('attr', ('self',), '_sample_size_all_channels'): bps_}
                         try:
-                            hit = [l for l in lv if holds(l, evaluator(assign))]
+                            try:
+                                hit = [l for l in lv if holds(l, evaluator(assign))]
+                            except DecidedRaise as exc:
+                                bad = bad or (lv[0], 'region[%s:%s] (a valid slice of ints): %s' % (str(a_)[:12], str(b_)[:12], exc), None)
+                                continue
                             if len(hit) != 1:
                                 undecided = '%d paths apply to region[%s:%s]' % (len(hit), a_, b_)
                                 break
